@@ -263,6 +263,11 @@ pub fn replay(scripts: &[Value]) -> (Vec<Value>, FqStats) {
             ev(w, json!({"ev":"poll","woken":woken,"parked":*parked}));
             let r = probe.poll_next(&mut cx);
             *wakes_at_ret = cur_count();
+            if r.is_ready() {
+                // the call returned: the next call is a new future, polled with a new waker
+                wakers.borrow_mut().push(CountWaker::new());
+                *wakes_at_ret = 0;
+            }
             match &r {
                 Poll::Ready(Some((k, (_, seq)))) => {
                     *delivered.entry(k.clone()).or_default() += 1;
